@@ -7,10 +7,13 @@ REAL_FAULT_LO = 0x1320008
 REAL_FAULT_HI = 0x1320014
 
 
-def first_real_fault(window):
-    """first nested real-fault-address record: strictly inside the window, id in the real-fault range"""
+def first_real_fault(window, codes=None):
+    """first nested real-fault-address record: strictly inside the window, named RealFaultAddress* by the code table"""
     for e in window[1:-1]:
-        if REAL_FAULT_LO <= e.eventid <= REAL_FAULT_HI:
+        if codes is None:
+            if REAL_FAULT_LO <= e.eventid <= REAL_FAULT_HI:
+                return e
+        elif (codes.get(e.eventid) or '').startswith('RealFaultAddress'):
             return e
     return None
 
@@ -19,7 +22,7 @@ def vmfault_expected(window, codes, decodable):
     """(result, fault_type_value or None, has_pid)"""
     end = window[-1]
     result = end.values[2]
-    nested = first_real_fault(window)
+    nested = first_real_fault(window, codes)
     has = result == 0 and nested is not None and codes.get(nested.eventid) in decodable
     return result, (end.values[3] if result == 0 else None), has, nested
 
